@@ -137,6 +137,26 @@ theorem binBits_sound (op : Src.BinOp) (t : STy) (x y : List Bool) (va vb : Val)
       by_cases hab : a = b <;> simp [hab]
     all_goals (simp at h)
 
+/-- the strict binary operators are defined on operands of the operator's type -/
+theorem binBits_not_stuck (op : Src.BinOp) (t : STy) (x y : List Bool) (va vb : Val) (tr : STy) (r : List Bool)
+    (panics : List (Bool × Arith.PanicKind)) (hx : Rel t va x) (hy : Rel t vb y)
+    (h : binBits op t x y = some (tr, r, panics)) :
+    (∀ w, Src.binop op t.toTy va vb ≠ .error (.stuck w)) ∧ Src.binop op t.toTy va vb ≠ .error .fuel := by
+  cases t with
+  | bool =>
+    obtain ⟨a, rfl, rfl⟩ := hx.bool_inv
+    obtain ⟨b, rfl, rfl⟩ := hy.bool_inv
+    cases op <;> simp only [binBits] at h <;> first | (simp at h; done) | simp [Src.binop, STy.toTy]
+  | int k =>
+    obtain ⟨a, rfl, ha, rfl⟩ := hx.int_inv
+    obtain ⟨b, rfl, hb, rfl⟩ := hy.int_inv
+    have hchk : ∀ n : Int, (∀ w, checked k n ≠ .error (.stuck w)) ∧ checked k n ≠ .error .fuel := by
+      intro n; unfold checked; split <;> simp
+    cases op <;> simp only [binBits] at h <;> first
+      | (simp at h; done)
+      | (simp only [Src.binop, STy.toTy, intOp]; exact hchk _)
+      | simp [Src.binop, STy.toTy, intOp]
+
 /-- `as` never fails on a value of the source type, and its bits are the encoding of the result -/
 theorem cast_sound (ts td : STy) (va : Val) (x : List Bool) (h : Rel ts va x) :
     ∃ w, Src.cast ts.toTy td.toTy va = .ok w ∧ Rel td w (Arith.cast x ts.signed td.bits) := by
@@ -796,6 +816,336 @@ theorem core_all (prog : Prog) : ∀ n f, f ≤ n → ExprOK prog f ∧ StmtsOK 
       subst this
       have ih := core_all prog n
       exact ⟨exprOK_succ prog n (ih n (Nat.le_refl n)).1 (ih n (Nat.le_refl n)).2, stmtsOK_succ prog n ih⟩
+
+/-! ### programs of the fragment never get stuck (type soundness for the fragment) -/
+
+def NoStuckE (prog : Prog) (fuel : Nat) : Prop :=
+  ∀ e env benv t bs p', EnvRel env benv → bitExpr benv e = some (t, bs, p') →
+    ∀ w, evalExpr fuel prog env e ≠ .error (.stuck w)
+
+def NoStuckS (prog : Prog) (fuel : Nat) : Prop :=
+  ∀ ss env benv t bs p', EnvRel env benv → bitStmts benv ss = some (t, bs, p') →
+    ∀ w, evalStmts fuel prog env ss ≠ .error (.stuck w)
+
+theorem noStuckE_succ (prog : Prog) (fuel : Nat) (ihE : NoStuckE prog fuel) (ihS : NoStuckS prog fuel) :
+    NoStuckE prog (fuel + 1) := by
+  have okE : ExprOK prog fuel := (core_all prog fuel fuel (Nat.le_refl _)).1
+  have okS : StmtsOK prog fuel := (core_all prog fuel fuel (Nat.le_refl _)).2
+  intro e env benv t bs p' henv hb w h
+  cases e with
+  | bool b => simp [evalExpr] at h
+  | int n k => simp [evalExpr] at h
+  | var x =>
+    simp only [bitExpr] at hb
+    split at hb
+    · rename_i t' bs' hg
+      obtain ⟨v0, hv0, _⟩ := henv.lookup x _ _ hg
+      simp [evalExpr, hv0] at h
+    · simp at hb
+  | un op ty a =>
+    cases op with
+    | not =>
+      cases ty <;> simp only [bitExpr] at hb
+      case bool =>
+        split at hb
+        · rename_i b p1 ha
+          rw [evalExpr] at h
+          cases hev : evalExpr fuel prog env a with
+          | error er =>
+            simp only [hev, Except.error.injEq] at h
+            subst h
+            exact ihE a env benv _ _ _ henv ha w hev
+          | ok res =>
+            obtain ⟨va, env1⟩ := res
+            obtain ⟨rfl, hrel, _⟩ := (okE a env benv _ _ _ henv ha).1 va env1 hev
+            obtain ⟨b', rfl, _⟩ := hrel.bool_inv
+            simp [hev, unop] at h
+        · simp at hb
+      all_goals (simp at hb)
+    | neg =>
+      cases ty <;> simp only [bitExpr] at hb
+      case int k =>
+        split at hb
+        · split at hb
+          · rename_i k' bs' p1 ha
+            split at hb
+            · rename_i hk
+              subst hk
+              rw [evalExpr] at h
+              cases hev : evalExpr fuel prog env a with
+              | error er =>
+                simp only [hev, Except.error.injEq] at h
+                subst h
+                exact ihE a env benv _ _ _ henv ha w hev
+              | ok res =>
+                obtain ⟨va, env1⟩ := res
+                obtain ⟨rfl, hrel, _⟩ := (okE a env benv _ _ _ henv ha).1 va env1 hev
+                obtain ⟨n, rfl, _, _⟩ := hrel.int_inv
+                simp only [hev, unop, checked] at h
+                cases hr : k'.inRange (-n) <;> simp [hr] at h
+            · simp at hb
+          · simp at hb
+        · simp at hb
+      all_goals (simp at hb)
+  | cast src dst a =>
+    simp only [bitExpr] at hb
+    split at hb
+    · rename_i ts td hs hd
+      split at hb
+      · rename_i ta x p1 ha
+        split at hb
+        · rename_i hts
+          subst hts
+          have hsrc := ofTy_some hs
+          have hdst := ofTy_some hd
+          subst hsrc
+          subst hdst
+          rw [evalExpr] at h
+          cases hev : evalExpr fuel prog env a with
+          | error er =>
+            simp only [hev, Except.error.injEq] at h
+            subst h
+            exact ihE a env benv _ _ _ henv ha w hev
+          | ok res =>
+            obtain ⟨va, env1⟩ := res
+            obtain ⟨rfl, hrel, _⟩ := (okE a env benv _ _ _ henv ha).1 va env1 hev
+            obtain ⟨w', hw, _⟩ := cast_sound ta td va x hrel
+            simp [hev, hw] at h
+        · simp at hb
+      · simp at hb
+    · simp at hb
+  | ite c tb fb =>
+    simp only [bitExpr] at hb
+    split at hb
+    · rename_i cb pc hc
+      split at hb
+      · rename_i tt tbits pt tf fbits pf ht hf
+        rw [evalExpr] at h
+        cases hev : evalExpr fuel prog env c with
+        | error er =>
+          simp only [hev, Except.error.injEq] at h
+          subst h
+          exact ihE c env benv _ _ _ henv hc w hev
+        | ok res =>
+          obtain ⟨vc, env1⟩ := res
+          obtain ⟨rfl, hrel, _⟩ := (okE c env benv _ _ _ henv hc).1 vc env1 hev
+          obtain ⟨b', rfl, _⟩ := hrel.bool_inv
+          cases b' with
+          | true =>
+            simp only [hev] at h
+            exact ihE tb env1 benv _ _ _ henv ht w h
+          | false =>
+            simp only [hev] at h
+            exact ihE fb env1 benv _ _ _ henv hf w h
+      · simp at hb
+    · simp at hb
+  | block ss =>
+    simp only [bitExpr] at hb
+    rw [evalExpr] at h
+    cases hev : evalStmts fuel prog env ss with
+    | error er =>
+      simp only [hev, Except.error.injEq] at h
+      subst h
+      exact ihS ss env benv _ _ _ henv hb w hev
+    | ok res =>
+      obtain ⟨v1, env1⟩ := res
+      simp [hev] at h
+  | bin op ty a b =>
+    cases op
+    case land =>
+      simp only [bitExpr] at hb
+      split at hb
+      · rename_i x p1 ha
+        split at hb
+        · rename_i y p2 hbb
+          rw [evalExpr] at h
+          cases hev : evalExpr fuel prog env a with
+          | error er =>
+            simp only [hev, Except.error.injEq] at h
+            subst h
+            exact ihE a env benv _ _ _ henv ha w hev
+          | ok res =>
+            obtain ⟨va, env1⟩ := res
+            obtain ⟨rfl, hrel, _⟩ := (okE a env benv _ _ _ henv ha).1 va env1 hev
+            obtain ⟨x', rfl, _⟩ := hrel.bool_inv
+            cases x' with
+            | false => simp [hev] at h
+            | true =>
+              simp only [hev] at h
+              exact ihE b env1 benv _ _ _ henv hbb w h
+        · simp at hb
+      · simp at hb
+    case lor =>
+      simp only [bitExpr] at hb
+      split at hb
+      · rename_i x p1 ha
+        split at hb
+        · rename_i y p2 hbb
+          rw [evalExpr] at h
+          cases hev : evalExpr fuel prog env a with
+          | error er =>
+            simp only [hev, Except.error.injEq] at h
+            subst h
+            exact ihE a env benv _ _ _ henv ha w hev
+          | ok res =>
+            obtain ⟨va, env1⟩ := res
+            obtain ⟨rfl, hrel, _⟩ := (okE a env benv _ _ _ henv ha).1 va env1 hev
+            obtain ⟨x', rfl, _⟩ := hrel.bool_inv
+            cases x' with
+            | true => simp [hev] at h
+            | false =>
+              simp only [hev] at h
+              exact ihE b env1 benv _ _ _ henv hbb w h
+        · simp at hb
+      · simp at hb
+    all_goals
+      simp only [bitExpr] at hb
+      split at hb
+      · simp at hb
+      · rename_i t' hty
+        split at hb
+        · simp at hb
+        · rename_i ta x p1 ha
+          split at hb
+          · simp at hb
+          · rename_i tb' y p2 hbb
+            split at hb
+            · rename_i hts
+              obtain ⟨rfl, rfl⟩ := hts
+              split at hb
+              · rename_i tr r panics hbin
+                have hty' := ofTy_some hty
+                subst hty'
+                rw [evalExpr_bin _ _ _ _ _ _ _ (by decide) (by decide)] at h
+                cases hev : evalExpr fuel prog env a with
+                | error er =>
+                  simp only [hev, Except.error.injEq] at h
+                  subst h
+                  exact ihE a env benv _ _ _ henv ha w hev
+                | ok res =>
+                  obtain ⟨va, env1⟩ := res
+                  obtain ⟨rfl, hra, _⟩ := (okE a env benv _ _ _ henv ha).1 va env1 hev
+                  cases hevb : evalExpr fuel prog env1 b with
+                  | error er =>
+                    simp only [hev, hevb, Except.error.injEq] at h
+                    subst h
+                    exact ihE b env1 benv _ _ _ henv hbb w hevb
+                  | ok resb =>
+                    obtain ⟨vb, env2⟩ := resb
+                    obtain ⟨rfl, hrb, _⟩ := (okE b env1 benv _ _ _ henv hbb).1 vb env2 hevb
+                    have hns := binBits_not_stuck _ _ x y va vb tr r panics hra hrb hbin
+                    simp only [hev, hevb] at h
+                    split at h
+                    · simp at h
+                    · rename_i er hop
+                      simp only [Except.error.injEq] at h
+                      subst h
+                      exact hns.1 w hop
+              · simp at hb
+            · simp at hb
+  | _ => simp [bitExpr] at hb
+
+theorem noStuckS_succ (prog : Prog) (fuel : Nat)
+    (ih : ∀ f, f ≤ fuel → NoStuckE prog f ∧ NoStuckS prog f) : NoStuckS prog (fuel + 1) := by
+  intro ss env benv t bs p' henv hb w h
+  cases fuel with
+  | zero =>
+    cases ss with
+    | nil => simp [bitStmts] at hb
+    | cons s rest => simp [evalStmts, evalStmt] at h
+  | succ f =>
+    have ihE := (ih f (by omega)).1
+    have ihS := (ih (f + 1) (by omega)).2
+    have okE : ExprOK prog f := (core_all prog f f (Nat.le_refl _)).1
+    cases ss with
+    | nil => simp [bitStmts] at hb
+    | cons s rest =>
+      cases s with
+      | expr e =>
+        cases rest with
+        | nil =>
+          simp only [bitStmts] at hb
+          rw [evalStmts] at h
+          simp only [evalStmt] at h
+          cases hev : evalExpr f prog env e with
+          | error er =>
+            simp only [hev, Except.error.injEq] at h
+            subst h
+            exact ihE e env benv _ _ _ henv hb w hev
+          | ok res =>
+            obtain ⟨v1, env1⟩ := res
+            simp [hev] at h
+        | cons s2 r2 => simp [bitStmts] at hb
+      | let_ pat e =>
+        cases pat with
+        | ident x =>
+          simp only [bitStmts] at hb
+          split at hb
+          · rename_i t1 bs1 p1 he
+            split at hb
+            · rename_i t2 bs2 p2 hrest
+              rw [evalStmts] at h
+              simp only [evalStmt] at h
+              cases hev : evalExpr f prog env e with
+              | error er =>
+                simp only [hev, Except.error.injEq] at h
+                subst h
+                exact ihE e env benv _ _ _ henv he w hev
+              | ok res =>
+                obtain ⟨v1, env1⟩ := res
+                obtain ⟨rfl, hr, _⟩ := (okE e env benv _ _ _ henv he).1 v1 env1 hev
+                simp only [hev, matchPat, List.cons_append, List.nil_append] at h
+                have henv2 : EnvRel ((x, v1) :: env1) ((x, t1, bs1) :: benv) := EnvRel.cons hr henv
+                cases rest with
+                | nil => simp [bitStmts] at hrest
+                | cons s2 r2 =>
+                  simp only at h
+                  exact ihS _ _ _ _ _ _ henv2 hrest w h
+            · simp at hb
+          · simp at hb
+        | _ => simp [bitStmts] at hb
+      | letMut x e =>
+        simp only [bitStmts] at hb
+        split at hb
+        · rename_i t1 bs1 p1 he
+          split at hb
+          · rename_i t2 bs2 p2 hrest
+            rw [evalStmts] at h
+            simp only [evalStmt] at h
+            cases hev : evalExpr f prog env e with
+            | error er =>
+              simp only [hev, Except.error.injEq] at h
+              subst h
+              exact ihE e env benv _ _ _ henv he w hev
+            | ok res =>
+              obtain ⟨v1, env1⟩ := res
+              obtain ⟨rfl, hr, _⟩ := (okE e env benv _ _ _ henv he).1 v1 env1 hev
+              simp only [hev] at h
+              have henv2 : EnvRel ((x, v1) :: env1) ((x, t1, bs1) :: benv) := EnvRel.cons hr henv
+              cases rest with
+              | nil => simp [bitStmts] at hrest
+              | cons s2 r2 =>
+                simp only at h
+                exact ihS _ _ _ _ _ _ henv2 hrest w h
+          · simp at hb
+        · simp at hb
+      | _ => simp [bitStmts] at hb
+
+/-- programs of the fragment never get stuck, for every fuel -/
+theorem noStuck_all (prog : Prog) : ∀ n f, f ≤ n → NoStuckE prog f ∧ NoStuckS prog f
+  | 0, f, hf => by
+    have : f = 0 := by omega
+    subst this
+    constructor
+    · intro e env benv t bs p' _ _ w h; simp [evalExpr] at h
+    · intro ss env benv t bs p' _ _ w h; simp [evalStmts] at h
+  | n + 1, f, hf => by
+    rcases Nat.lt_or_ge f (n + 1) with h | h
+    · exact noStuck_all prog n f (by omega)
+    · have : f = n + 1 := by omega
+      subst this
+      have ih := noStuck_all prog n
+      exact ⟨noStuckE_succ prog n (ih n (Nat.le_refl n)).1 (ih n (Nat.le_refl n)).2, noStuckS_succ prog n ih⟩
 
 end Bit
 end GV
